@@ -60,6 +60,7 @@ class Interp:
         self.line_hits = set()
         self.prints = 0
         self.spec_uses = set()
+        self.engine_opts = {}
         from . import intrinsics
         self.intrinsics = intrinsics.INTRINSICS
         self.ctx = core.Ctx(core.Explorer(self), [])
